@@ -198,10 +198,20 @@ def classify(unit, text, pm, proc):
             if fn_label is None and s in prim:
                 fn_label = lab
             locs.append({"origin": origin, "fn": lab, "text": _hl(s), "label": s.get("label"),
+                         "incpath": tag[1] if origin == "inc" else "",
                          "anchor": tag[2] if origin == "ins" and len(tag) > 2 else None})
         # the function whose body is being checked: for precondition failures the primary span is the call site
         if fn_label is None:
             fn_label = next((l.get("fn") for l in locs if l.get("fn")), "?")
+        if kind == "precondition":
+            # a failed precondition of a std / assumed external function (unwrap, expect, index, next_power_of_two ...) is a
+            # possible panic of the real code; a failed precondition of one of our lemmas is a proof step
+            for l in locs[1:] + locs[:1]:
+                if l.get("file") and not l["file"].endswith(os.path.basename(unit + ".rs")):
+                    kind = "panic-precondition"; break
+                if l.get("origin") == "inc" and (l.get("label") or "").startswith("failed precondition"):
+                    if l.get("incpath", "").startswith("prelude/"):
+                        kind = "panic-precondition"; break
         clause = locs[0]["text"] if locs else ""
         other = [(l.get("label") if (l.get("label") or "").startswith("at the end") else l["text"][:70]) for l in locs[1:] if l.get("text")]
         name = "%s/%s/%s: %s" % (unit, fn_label, kind, clause)
